@@ -7,17 +7,26 @@ class C19(Spec):
     prop = "C19"
     coq_targets = ["Props/C19.vo"]
     prop_module = "Props.C19"
-    theorems = []
-    # the same inputs go through both feature builds; the model has no diagnostics state at all, so
-    # agreement of each build with the model is the erasure statement, and the two builds are also
-    # compared with each other directly (extra_checks)
-    builds = [("default", "dev"), ("descr", "dev"), ("default", "release"), ("descr", "release")]
+    theorems = ["C19_erasure", "C19_erasure_history"]
+    # ops 1201/1202: the same inputs go through both feature builds and the log-free model (Uper/Reader.v), and the
+    # two builds are also compared with each other directly (extra_checks).
+    # op 1204 (feature builds only): the same read through `Reader::read`, answered by the model WITH the log
+    # (Uper/ReaderD.v, the one C19_erasure is about); on a failure both sides print the log that ends up in
+    # `Error::scope_description()` as one constructor code per entry, so the log model itself is tied.
+    # the feature build first: the in-Coq cross-check of the extracted driver samples the first build, so it covers op 1204
+    builds = [("descr", "dev"), ("default", "dev"), ("default", "release"), ("descr", "release")]
     timeout_per_chunk = 600
     xcheck_n = 60
-    level_text = ("Non-interference: the model of the UPER reader carries no diagnostics state, and every "
-                  "#[cfg(feature = \"descriptive-deserialize-errors\")] block of rw/uper.rs is a push onto a log (audited syntactically "
-                  "by gen/cfg_audit.py); both real builds are tied to that one model by differential execution on valid, mutated and random "
-                  "inputs, and compared with each other line by line (same Ok value or error kind, same bits consumed).")
+    level_text = ("Erasure proof: Uper/ReaderD.v models the reader as built with the feature (state = state of the default-build model "
+                  "plus the log; each of the 44 #[cfg(feature = \"descriptive-deserialize-errors\")] items of rw/uper.rs is a push of a "
+                  "constructor code at its program point, pushes that follow a computed result are executed for Ok and Err alike, errors carry "
+                  "the log); C19_erasure proves that dropping the log gives exactly the default-build model (same Ok value, error kind, panic "
+                  "class, cursor, length and scope), C19_erasure_history the same for several reads from one reader. Ties: both real builds "
+                  "against the log-free model on ops 1201/1202 (hard), the two builds against each other line by line, and the feature build "
+                  "against the log model on op 1204, where on every failing read the sequence of ScopeDescription constructors in "
+                  "Error::scope_description() must equal the model's log entry by entry (hard as well; only the enumerated-index warning is "
+                  "filtered on both sides, because the harness' EnumC has the constant VARIANT_COUNT = 0 and so provokes it for every index; "
+                  "payloads of the entries are not modelled). The cfg items are additionally audited syntactically by gen/cfg_audit.py.")
     rule = ("the C04 UPER input set (80 zoo types x random byte strings and mutated valid encodings with varied declared bit lengths) run through "
             "the harness built with default features and with --features descriptive-deserialize-errors, dev and release; plus full round trips. "
             "non-trivial = the read consumed at least one bit or failed after a length field; distinct = distinct case line")
@@ -31,7 +40,12 @@ class C19(Spec):
             t = U.gen_ty(rng, rng.randrange(0, 4))
             v = U.gen_val(rng, t, rng.choice(["valid", "ext"]))
             L.append(U.line(1201, [1] + U.enc_ty(t) + U.enc_val(v)))
+        # the log model: every raw read once more as op 1204 (answered only by the feature builds)
+        L += ["1204" + l[4:] for l in L if l.startswith("1202 ")]
         return L
+
+    def applies(self, line, build):
+        return build[0] == "descr" or not line.startswith("1204")
 
     def canon(self, out):
         if out.startswith("3 ") or out in ("2 7 0", "2 3 0", "2 7", "2 3") or out.endswith(" 2 7") or out.endswith(" 2 3"):
@@ -42,7 +56,8 @@ class C19(Spec):
         return None     # the property is relational: judged in extra_checks
 
     def extra_checks(self, ctx):
-        lines = ctx["lines"]
+        all_lines = ctx["lines"]
+        lines = [l for l in all_lines if not l.startswith("1204")]
         exes = ctx["exes"]
         n_cmp = 0
         for prof in ("dev", "release"):
@@ -58,6 +73,20 @@ class C19(Spec):
                                                "class": "feature_changes_result",
                                                "what": "default build answers %s, descriptive-deserialize-errors build answers %s" % (x[:80], y[:80])})
         ctx.setdefault("coverage_extra", {})["cross_build_comparisons"] = n_cmp
+        # how much of the log model was exercised by op 1204 (the comparison itself is part of the ordinary tie)
+        d = exes.get(("descr", "dev"))
+        l4 = [l for l in all_lines if l.startswith("1204")]
+        if d and l4:
+            o4 = run_lines([d], l4, timeout=self.timeout_per_chunk, mem_gb=self.mem_gb)
+            fails = [o.split() for o in o4 if o.startswith("1 ")]
+            kinds = set()
+            for f in fails:
+                kinds.update(f[4:])
+            ctx["coverage_extra"]["log_model"] = {
+                "op1204_cases": len(l4), "failing_reads_with_log_compared": len(fails),
+                "log_entries_compared": sum(int(f[3]) for f in fails if len(f) > 3),
+                "longest_log": max([int(f[3]) for f in fails if len(f) > 3] or [0]),
+                "distinct_entry_codes_seen": sorted(int(k) for k in kinds)}
         # syntactic audit of the cfg-gated blocks (sentinel, not verdict)
         try:
             import sys, os
